@@ -4,6 +4,7 @@ import (
 	"bytes"
 	"context"
 	"fmt"
+	corekeyper "github.com/shutter-network/rolling-shutter/rolling-shutter/keyper/database"
 	"sort"
 	"strings"
 	"testing"
@@ -28,30 +29,34 @@ type pendingMsg struct {
 }
 
 type c03Sim struct {
-	Fl       flavour
-	N, T     int
-	Fix      *eonFixture
-	Nodes    []*simNode
-	Access   *accessNode
-	Sets     [][][]byte // identity sets
-	Pending  []pendingMsg
-	Dropped  []int // share messages dropped per receiver
-	Budget   int
+	Fl            flavour
+	N, T          int
+	Fix           *eonFixture
+	Nodes         []*simNode
+	Access        *accessNode
+	Sets          [][][]byte // identity sets
+	Pending       []pendingMsg
+	Dropped       []int // share messages dropped per receiver
+	Budget        int
 	KeysPublished int
-	Log      []string
-	fail     failFn
+	Log           []string
+	fail          failFn
 	// per receiver: distinct share senders delivered per identity set, keys message seen
-	gotShares []map[int]map[int]bool
-	gotKeys   []map[int]bool
+	gotShares      []map[int]map[int]bool
+	gotKeys        []map[int]bool
 	LateCompletion bool // some node reached t shares only after a duplicate or an out-of-order keys message
-	Lossy bool
-	gotAny    []map[int]bool // node -> set -> at least one message of that set was delivered to it
-	trigDone  []map[int]bool // node -> set -> already triggered
+	Lossy          bool
+	gotAny         []map[int]bool // node -> set -> at least one message of that set was delivered to it
+	trigDone       []map[int]bool // node -> set -> already triggered
 }
 
 const c03CfgIdx = 3
 
-func newC03Sim(fl flavour, n, th int, sets [][][]byte, fail failFn) *c03Sim {
+// newC03Sim builds n nodes. earlyAsk lists nodes for which the eon with the successful key generation is a
+// restarted one that appears only after the node's long-lived key-share service was already asked once
+// (a failed first eon of the same keyper set, same activation block): the request before must be ignored
+// and must not influence the requests after.
+func newC03Sim(fl flavour, n, th int, sets [][][]byte, fail failFn, earlyAsk ...int) *c03Sim {
 	ctx := context.Background()
 	s := &c03Sim{Fl: fl, N: n, T: th, Fix: getEonFixture(n, th), Sets: sets, fail: fail}
 	members := make([]int, n)
@@ -59,15 +64,50 @@ func newC03Sim(fl flavour, n, th int, sets [][][]byte, fail failFn) *c03Sim {
 		members[i] = i
 	}
 	es := &eonSetup{KeyperConfigIndex: c03CfgIdx, Eon: 30, Activation: 100, Members: members, Threshold: th, Keys: s.Fix.Real}
+	early := map[int]bool{}
+	for _, i := range earlyAsk {
+		early[i] = true
+	}
 	for i := 0; i < n; i++ {
 		node := newSimNode(fl, i, 8)
-		if err := writeBatchConfigAndEon(ctx, node.DB, es, fl != flCore); err != nil {
-			panic(err)
+		if len(earlyAsk) > 0 {
+			failed := &eonSetup{KeyperConfigIndex: c03CfgIdx, Eon: 29, Activation: 100, Members: members, Threshold: th, Keys: s.Fix.Foreign}
+			if err := writeBatchConfigAndEon(ctx, node.DB, failed, fl != flCore); err != nil {
+				panic(err)
+			}
+			if err := writeDKGResult(ctx, node.DB, failed, i, false); err != nil {
+				panic(err)
+			}
+			node.startKeyShareService()
+			if early[i] {
+				if fl == flGnosis {
+					_ = gnosisdb.New(node.DB.Pool).SetCurrentDecryptionTrigger(ctx, gnosisdb.SetCurrentDecryptionTriggerParams{
+						Eon: c03CfgIdx, Slot: 500, TxPointer: 7, IdentitiesHash: gnosis.VerifComputeIdentitiesHash(preimages(sets[0])),
+					})
+				}
+				if err := node.Trigger(105, preimages(sets[0])); err != nil {
+					panic(err)
+				}
+				if sent := node.TakeSent(); len(sent) > 0 {
+					fail("shares-for-failed-eon", "keyper %d sent %d messages for a keyper set whose only key generation failed", i, len(sent))
+				}
+				s.logf("early request k%d (key generation failed so far)", i)
+			}
+			// the restarted key generation succeeds
+			if err := corekeyper.New(node.DB.Pool).InsertEon(ctx, corekeyper.InsertEonParams{Eon: es.Eon, Height: 2, ActivationBlockNumber: es.Activation, KeyperConfigIndex: c03CfgIdx}); err != nil {
+				panic(err)
+			}
+		} else {
+			if err := writeBatchConfigAndEon(ctx, node.DB, es, fl != flCore); err != nil {
+				panic(err)
+			}
 		}
 		if err := writeDKGResult(ctx, node.DB, es, i, true); err != nil {
 			panic(err)
 		}
-		node.startKeyShareService()
+		if len(earlyAsk) == 0 {
+			node.startKeyShareService()
+		}
 		s.Nodes = append(s.Nodes, node)
 		s.gotShares = append(s.gotShares, map[int]map[int]bool{})
 		s.gotAny = append(s.gotAny, map[int]bool{})
@@ -370,7 +410,11 @@ func runC03Schedule(rt *rapid.T, rec *Recorder, fl flavour) {
 	n := rapid.SampledFrom([]int{3, 3, 3, 4, 4, 5}).Draw(rt, "n")
 	th := rapid.IntRange(1, n).Draw(rt, "t")
 	sets := genIdentitySets(rt, fl)
-	sim := newC03Sim(fl, n, th, sets, func(sig, f string, a ...any) { fatalf(rt, sig, f, a...) })
+	var earlyAsk []int
+	if rapid.IntRange(0, 3).Draw(rt, "restartedEon") == 0 {
+		earlyAsk = rapid.SliceOfNDistinct(rapid.IntRange(0, n-1), 1, n, rapid.ID[int]).Draw(rt, "earlyAsk")
+	}
+	sim := newC03Sim(fl, n, th, sets, func(sig, f string, a ...any) { fatalf(rt, sig, f, a...) }, earlyAsk...)
 	defer sim.Close()
 	// which keypers are triggered, per identity set
 	triggered := map[int][]int{}
@@ -443,6 +487,9 @@ func runC03Schedule(rt *rapid.T, rec *Recorder, fl flavour) {
 	}
 	if setsOverlap(sets) {
 		labels = append(labels, "requests-share-an-identity")
+	}
+	if len(earlyAsk) > 0 {
+		labels = append(labels, "restarted-eon-after-early-request")
 	}
 	if dups > 0 {
 		labels = append(labels, "with-duplicates")
